@@ -44,7 +44,7 @@ def lowpass_filter(
         real=True,
         backend=backend,
     )
-    out = backend.irfftn(weight * backend.rfftn(img))
+    out = backend.irfftn(weight * backend.rfftn(img), s=img.shape)
     return out.real
 
 
@@ -81,7 +81,7 @@ def highpass_filter(
         order,
         real=True,
     )
-    out = backend.irfftn(weight * backend.rfftn(img))
+    out = backend.irfftn(weight * backend.rfftn(img), s=img.shape)
     return out.real
 
 
